@@ -20,9 +20,23 @@ def hashers():
     out.append(dict(name="scrypt", base=H.scrypt, keys=["block_size"], kind=dict(block_size="int"), lo=dict(block_size=1), hi=dict(block_size=2147483647),
                     cands=dict(block_size={-3, 0, 1, 2, 8, 1073741824}), to_real={}, attr=dict(block_size="block_size"), attr_map={}, extra=dict(rounds=1),
                     fixed=dict(parallelism=1), parse=lambda s: dict(block_size=int(s.split(",r=")[1].split(",")[0]))))
+    # scrypt: parallelism >= 1 (clamped when relaxed) - with the block size fixed
+    out.append(dict(name="scrypt", base=H.scrypt, keys=["parallelism"], kind=dict(parallelism="int"), lo=dict(parallelism=1), hi=dict(parallelism=2147483647),
+                    cands=dict(parallelism={-2, 0, 1, 2, 3}), to_real={}, attr=dict(parallelism="parallelism"), attr_map={}, extra=dict(rounds=1),
+                    fixed=dict(block_size=8), parse=lambda s: dict(parallelism=int(s.split(",p=")[1].split("$")[0]))))
     # fshp: variant 0..3
     out.append(dict(name="fshp", base=H.fshp, keys=["variant"], kind=dict(variant="enum"), lo=dict(variant=0), hi=dict(variant=3), cands=dict(variant={0, 1, 2, 3, 4}),
                     to_real={}, attr=dict(variant="default_variant"), attr_map={}, extra=dict(rounds=1), parse=lambda s: dict(variant=int(s[5]))))
+    # cisco_type7: the offset ("salt") is an integer 0..52, clamped when relaxed; the root is a hasher with a fixed offset
+    out.append(dict(name="cisco_type7", base=H.cisco_type7.using(salt=7), keys=["salt"], kind=dict(salt="int"), lo=dict(salt=0), hi=dict(salt=52),
+                    cands=dict(salt={-3, -1, 0, 9, 52, 53, 100}), to_real={}, attr=None, basevals=dict(salt=7), attr_map={}, extra={}, parse=lambda s: dict(salt=int(s[:2]))))
+    # identifiers of the multi-ident hashers, given in every accepted spelling (alias or full, text or bytes)
+    out.append(dict(name="bcrypt", base=H.bcrypt, keys=["ident"], kind=dict(ident="enum"), lo=dict(ident=1), hi=dict(ident=3), cands=dict(ident={1, 2, 3, 4}),
+                    to_real=dict(ident={1: "2a", 2: "2b", 3: "2y", 4: "2z"}), attr=dict(ident="default_ident"), attr_map=dict(ident={"$2a$": 1, "$2b$": 2, "$2y$": 3}),
+                    extra=dict(rounds=4), parse=lambda s: dict(ident={"2a": 1, "2b": 2, "2y": 3}.get(s[1:3], 0))))
+    out.append(dict(name="phpass", base=H.phpass, keys=["ident"], kind=dict(ident="enum"), lo=dict(ident=1), hi=dict(ident=2), cands=dict(ident={1, 2, 3}),
+                    to_real=dict(ident={1: "P", 2: "H", 3: "Q"}), attr=dict(ident="default_ident"), attr_map=dict(ident={"$P$": 1, "$H$": 2}),
+                    extra=dict(rounds=7), parse=lambda s: dict(ident={"P": 1, "H": 2}.get(s[1:2], 0))))
     # truncating hashers: the truncate_error policy is carried along the derivation tree; what it does is observed in BYTES
     from passlib import registry
     for name in sorted(registry.list_crypt_handlers()):
@@ -85,7 +99,9 @@ def run(chk, quick, rnd):
         fixed = hd.get("fixed", {})
         basevals = {}
         for k in hd["keys"]:
-            if hd["attr"] is None:
+            if "basevals" in hd:
+                basevals[k] = hd["basevals"][k]
+            elif hd["attr"] is None:
                 basevals[k] = hd["lo"][k]
             else:
                 v = getattr(base, hd["attr"][k])
@@ -204,12 +220,24 @@ def explicit_salts(chk, rnd):
                                   {"hasher": name, "ident": ident, "route": route, "hash": s1})
 
 
+FORM = [0]
+
+
 def real_kw(hd, kw):
+    """keyword values as a caller may write them: identifiers as alias or in full, as text or bytes; numbers as int or as the decimal
+    text a configuration file carries (all documented as equivalent)"""
     out = {}
     for k, v in kw.items():
         if v == UNSET or k not in hd["keys"]:
             continue
-        out[k] = hd["to_real"].get(k, {}).get(v, v)
+        r = hd["to_real"].get(k, {}).get(v, v)
+        FORM[0] += 1
+        f = FORM[0] % 4
+        if k == "ident" and isinstance(r, str):
+            r = [r, "$" + r + "$", r.encode(), ("$" + r + "$").encode()][f]
+        elif hd["kind"].get(k) == "int" and isinstance(r, int) and not isinstance(r, bool) and f == 1 and hd["name"] == "scrypt":    # (scrypt's cost settings are read from configuration text too)
+            r = str(r)
+        out[k] = r
     return out
 
 
